@@ -306,6 +306,23 @@ def gen_series_operate(tree):
     for o in OTHER + ['__matmul__']:
         if o in sm:
             raise TranslationError('_SeriesColumn defines %s (not modelled)' % o)
+    # _SeriesColumn._map (col @ f, map_(f, col) on a series column) is PINNED: every f(cell) is written through the new
+    # column's own setter (`newcol[i] = a`: cast into the float64 buffer of a fresh series column).  That is what lets
+    # _operate below trust that the buffer of a DERIVED series column is a float array whatever f returned (bool / int /
+    # float32 arrays, Python lists): a result column built from the stacked results keeps THEIR dtype, and
+    # mapped + mapped becomes a logical OR.  (Nothing is emitted for it: the generated text does not change.)
+    mp = sm.get('_map')
+    if mp is None:
+        raise TranslationError('_SeriesColumn does not define _map (pinned)')
+    if [a.arg for a in mp.args.args] != ['self', 'fnc'] or mp.args.vararg or mp.args.kwarg or mp.args.kwonlyargs \
+            or mp.args.defaults or mp.decorator_list:
+        raise TranslationError('_SeriesColumn._map: signature')
+    mbody = body_nodoc(mp)
+    if len(mbody) != 2:
+        raise TranslationError('_SeriesColumn._map: %d statements, expected 2 (pinned)' % len(mbody))
+    expect_same(mbody[0], 'for i, cell in enumerate(self):\n    a = fnc(cell)\n    if not i:\n'
+                          '        newcol = _SeriesColumn(self.dm, depth=len(a))\n    newcol[i] = a', '_SeriesColumn._map')
+    expect_same(mbody[1], 'return newcol', '_SeriesColumn._map')
     fn = sm['_operate']
     other = operate_sig(fn, '_SeriesColumn._operate')
     body = body_nodoc(fn)
